@@ -67,17 +67,9 @@ def judge_programs(chk, exe, progs, wd, tag, budget=20000, cli_sample=0, rng=Non
     verdicts, rs = srctrace.validate(srecs, wd, tag=tag, budget=budget)
     for r in rs:
         chk.add_tlc(r)
-    # `this` under delegation is under-specified: a program that disagrees in holder mode and met a delegated method is retried in receiver mode
-    retry = [r for r in srecs if verdicts[r['id']]['verdict'] == 'ok' and verdicts[r['id']]['frag'] and not verdicts[r['id']]['agree'] and verdicts[r['id']]['amb']]
-    if retry:
-        for r in retry:
-            r['mode'] = 'receiver'
-        v2, rs2 = srctrace.validate(retry, wd, tag=tag + 'r', budget=budget)
-        for r in rs2:
-            chk.add_tlc(r)
-        for k, v in v2.items():
-            if v['agree']:
-                verdicts[k] = v
+    # `this` in a method found in an ancestor is "the host object of the method" (README): the object that defines it.  (Until round 5 a program that disagreed under
+    # this reading and had met a delegated method was retried with `this` = the original receiver, as in Feeny, and accepted if that agreed; the README is clear enough
+    # and the leniency hid a seeded change, so it was removed.  FMLSource still has the mode switch; nothing sets it.)
     judged = 0
     for r in srecs:
         v = verdicts[r['id']]
@@ -675,7 +667,7 @@ def c14(tier):
     chk.rule = ('TLC enumerates (MC_Objects) parent chains of depth 0-3 ending in null/int/bool/array whose levels define one of 8 member sets (m, +, get, set, m with another parameter count, get without parameters; overriding) x 15 '
                 'calls on the outermost object (right/wrong argument counts, operators, a[i], a[i] <- v, get/set by name, unknown method, field access), and aliasing templates '
                 'storage kind^2 x target x mutation (+ value semantics of int/bool/null); FMLSource (lookup along the chain, arity check where found, built-ins at the end, shared heap '
-                'cells), run by TLC, prescribes each outcome; `this` under delegation accepted as holder or receiver. Quick: all chains of depth <= 1 + a stride of deeper ones, all '
+                'cells), run by TLC, prescribes each outcome; `this` in an inherited method is the object that defines the method (the host object of the README). Quick: all chains of depth <= 1 + a stride of deeper ones, all '
                 'aliasing templates; thorough: all. distinct_nontrivial = distinct descriptors judged.')
     exe = build('debug')
     wd = scratch('c14')
@@ -695,7 +687,7 @@ def c14(tier):
         st, out = srctrace.status_of(outs[i])
         chk.sample({'program': progs[i]['name'], 'source': progs[i]['text'][:500], 'status': st, 'out': bytes(out).decode('utf-8', 'replace')})
     chk.exhaustive = (tier == 'thorough')
-    chk.assumptions = ['TLC', 'FMLSource object model (DESIGN §3.7); `this` = holder (as implemented) or receiver (as in Feeny) are both accepted']
+    chk.assumptions = ['TLC', 'FMLSource object model (DESIGN §3.7); `this` in an inherited method = the host object of the method (README)']
     rm(wd)
     return chk.finish()
 
